@@ -91,13 +91,16 @@ def kernel_oracle(case, out):
 # --------------------------------------------------------------------------- API level
 def api_cases(chk, tier):
     rng = chk.rng
-    n_cases = 36 if tier == "quick" else 400
     out = []
-    combos = [(op, kx, ky) for op in ("Add", "Sub", "Mul", "Div") for kx in ("pos", "neg", "straddle", "zero_lo", "precise", "interval", "steps")
-              for ky in ("pos", "neg", "straddle", "zero_hi", "interval")]
-    rng.shuffle(combos)
-    for i in range(n_cases):
-        op, kx, ky = combos[i % len(combos)]
+    # every pairing of sign classes for products and quotients in every run (the routing of the Frechet product depends on them,
+    # including operands that touch zero from either side); sums and differences and the remaining kinds at random
+    signs = ("pos", "neg", "straddle", "zero_lo", "zero_hi")
+    combos = [(op, kx, ky) for op in ("Mul", "Div") for kx in signs for ky in signs]
+    extra = [(op, kx, ky) for op in ("Add", "Sub", "Mul", "Div") for kx in ("pos", "neg", "straddle", "zero_lo", "zero_hi", "precise", "interval", "steps")
+             for ky in ("pos", "neg", "straddle", "zero_hi", "zero_lo", "interval", "precise")]
+    rng.shuffle(extra)
+    combos += extra[:14 if tier == "quick" else 350]
+    for op, kx, ky in combos:
         X = pbx.gen_bounds(rng, 200, kx, dy=rng.random() < 0.5)
         Y = pbx.gen_bounds(rng, 200, ky, dy=rng.random() < 0.5)
         out.append((op, "f", X, Y, (kx, ky), rng.random() < 0.3))
